@@ -3,38 +3,70 @@ import Corerad.Spec.C16
 namespace Driver.C16
 open Corerad Corerad.Model
 
+def triples : List Int → Option (List (Int × Int × Int))
+  | [] => some []
+  | a :: b :: c :: r => do let rs ← triples r; pure ((a, b, c) :: rs)
+  | _ => none
+
 def pairs : List Int → Option (List (Int × Int))
   | [] => some []
   | a :: b :: r => do let rs ← pairs r; pure ((a, b) :: rs)
   | _ => none
 
-/-- `pl dep epoch V P n t… | v p v p …` -/
+/-- last clock reading handed out while the plugin was applied for reading `t` with `reads`
+    calls of the stepping clock (`stepClock.now` in the harness): it never passes the next
+    reading of the sequence. -/
+def lastReading (t step reads : Int) (next : Option Int) : Int :=
+  let v := if reads ≤ 1 then t else t + (reads - 1) * step
+  match next with
+  | some n => if v > n then n else v
+  | none => v
+
+def nexts : List Int → List (Option Int)
+  | [] => []
+  | [_] => [none]
+  | _ :: b :: r => some b :: nexts (b :: r)
+
+/-- `pl dep epoch V P step n t… | (v p reads)…` -/
 def pl (c impl : List String) : Option Verdict := do
-  let (dep, epoch, V, Pf, ts) ← P.run (do
-    let d ← P.bool; let e ← P.int; let v ← P.int; let p ← P.int; let ts ← P.list P.int
-    pure (d, e, v, p, ts)) c
+  let (dep, epoch, V, Pf, step, ts) ← P.run (do
+    let d ← P.bool; let e ← P.int; let v ← P.int; let p ← P.int; let s ← P.int; let ts ← P.list P.int
+    pure (d, e, v, p, s, ts)) c
   let out := ts.map fun t => prefixLifetimes dep epoch V Pf t
   let flat := out.flatMap fun (v, p) => [toString v, toString p]
   let implI ← impl.mapM String.toInt?
-  let ip ← pairs implI
+  let ip ← triples implI
   if ip.length != ts.length then none
-  let obs := (ts.zip ip).map fun (t, (v, p)) => (t, v, p)
+  let obs := (ts.zip ip).map fun (t, (v, p, _)) => (t, v, p)
+  let span := ((ts.zip (nexts ts)).zip ip).map fun ((t, nx), (v, p, r)) => (t, lastReading t step r nx, v, p)
+  let point := span.all fun (lo, hi, _, _) => lo == hi
+  let implFlat := ip.flatMap fun (v, p, _) => [toString v, toString p]
   let crosses := ts.any (fun t => t < epoch + V) && ts.any (fun t => t ≥ epoch + Pf)
   pure { model := " ".intercalate flat,
-         oracle := Spec.C16.holdsPrefix dep epoch V Pf obs,
-         nontrivial := dep && crosses }
+         oracle := Spec.C16.holdsPrefixSpan dep epoch V Pf span &&
+                   (!point || Spec.C16.holdsPrefix dep epoch V Pf obs),
+         nontrivial := dep && crosses,
+         note := if point then "" else "clock read more than once per RA (moving clock)",
+         agreeOverride := some (flat == implFlat) }
 
-/-- `rl dep epoch L n t… | l …` -/
+/-- `rl dep epoch L step n t… | (l reads)…` -/
 def rl (c impl : List String) : Option Verdict := do
-  let (dep, epoch, L, ts) ← P.run (do
-    let d ← P.bool; let e ← P.int; let l ← P.int; let ts ← P.list P.int
-    pure (d, e, l, ts)) c
+  let (dep, epoch, L, step, ts) ← P.run (do
+    let d ← P.bool; let e ← P.int; let l ← P.int; let s ← P.int; let ts ← P.list P.int
+    pure (d, e, l, s, ts)) c
   let out := ts.map fun t => routeLifetime dep epoch L t
   let implI ← impl.mapM String.toInt?
-  if implI.length != ts.length then none
+  let ip ← pairs implI
+  if ip.length != ts.length then none
+  let obs := (ts.zip ip).map fun (t, (l, _)) => (t, l)
+  let span := ((ts.zip (nexts ts)).zip ip).map fun ((t, nx), (l, r)) => (t, lastReading t step r nx, l)
+  let point := span.all fun (lo, hi, _) => lo == hi
   let crosses := ts.any (fun t => t < epoch + L) && ts.any (fun t => t ≥ epoch + L)
   pure { model := " ".intercalate (out.map toString),
-         oracle := Spec.C16.holdsRoute dep epoch L (ts.zip implI),
-         nontrivial := dep && crosses }
+         oracle := Spec.C16.holdsRouteSpan dep epoch L span &&
+                   (!point || Spec.C16.holdsRoute dep epoch L obs),
+         nontrivial := dep && crosses,
+         note := if point then "" else "clock read more than once per RA (moving clock)",
+         agreeOverride := some (out.map toString == ip.map fun (l, _) => toString l) }
 
 end Driver.C16
